@@ -12,15 +12,19 @@ CONSTANT Strict          \* subset of {"C02","C04","C05","C08","C09","C10","C11"
 
 Rec == ndJsonDeserialize(IOEnv.TRACE)
 
-VARIABLE l
-vars == <<fvars, l>>
+VARIABLE l,
+         jset     \* provenance ids for which a complete Jacobian has been computed since the problem was built
+vars == <<fvars, l, jset>>
 Ev == Rec[l]
 Is(e) == l <= Len(Rec) /\ Ev.ev = e
 Consume == l' = l + 1
 G(ids, cond) == (ids \cap Strict # {}) => cond
 InSeq(x, s) == \E i \in 1..Len(s) : s[i] = x
 
-Init == l = 1 /\ Init0
+Init == l = 1 /\ Init0 /\ jset = {}
+\* a Jacobian delivered without derivative calls is a behaviour when no state property is being judged,
+\* or when the problem has computed one before for exactly the parameters it holds and its cache is theirs
+MemoOk == (Strict \cap {"C02", "C03", "C04", "C05", "C09", "C10"} = {}) \/ (tgt \in jset /\ own = tgt)
 
 TrBuildStart == Is("BuildStart") /\ BuildStart(Ev.P) /\ Consume
 TrBuildSet == Is("MSet") /\ BuildSet(Ev.aid, Ev.ok) /\ Consume
@@ -61,7 +65,7 @@ TrCJacEnd ==
   /\ CJacEnd
   /\ Consume
   \* no Jacobian unless the cache is present and every derivative evaluated (C03/C09)
-  /\ G({"C09", "C03"}, Ev.present => CJacPresent)
+  /\ G({"C09", "C03"}, Ev.present => (CJacPresent \/ (phase \in {"built", "done"} /\ MemoOk)))
   \* a problem with a present cache delivers its Jacobian, whatever its history (C10), in particular
   \* the problem a fit handed back (C04: the final problem, C02: one single state)
   /\ G({"C10", "C04", "C02", "C09"}, CJacDue => Ev.present)
@@ -76,6 +80,7 @@ TrFitStart ==
   /\ Consume
 TrDeriv == Is("MDeriv") /\ Deriv(Ev.k, Ev.ok) /\ Consume
 TrTrialSet == Is("MSet") /\ TrialSet(Ev.aid, Ev.ok) /\ Consume
+TrTrialSetMemo == Is("MSet") /\ MemoOk /\ TrialSetMemo(Ev.aid, Ev.ok) /\ Consume
 TrEvalAfterFailedSet == Is("MEval") /\ EvalAfterFailedSet(Ev.ok) /\ Consume
 TrTrialEval == Is("MEval") /\ (\E dec \in Decisions, keep \in BOOLEAN : (keep => NoC09) /\ TrialEval(Ev.ok, dec, keep)) /\ Consume
 TrResetSet == Is("MSet") /\ ResetSet(Ev.aid, Ev.ok) /\ Consume
@@ -124,13 +129,18 @@ TrBestFit ==
   /\ Consume
   /\ G({"C09", "C02"}, Ev.present => own # -1)
 
-Next == \/ TrBuildStart \/ TrBuildSet \/ TrBuildEval \/ TrBuildEnd
-        \/ TrCSet \/ TrCSetEval \/ TrCSetEnd \/ TrCJacDeriv \/ TrCJacEnd
-        \/ TrFitStart \/ TrDeriv \/ TrTrialSet \/ TrEvalAfterFailedSet \/ TrTrialEval
-        \/ TrResetSet \/ TrResetEval \/ TrFitEnd
-        \/ TrStaleBuildEval \/ TrStaleCSetEval \/ TrStaleTrialEval
-        \/ TrCSetSkip \/ TrTrialSetSkip \/ TrResetSetSkip
-        \/ TrStatDeriv \/ TrStatEval \/ TrStatsEnd \/ TrPostEval \/ TrBestFit
+\* the steps that complete a Jacobian record its owner; a new problem starts with none
+JacDone == own # -1 /\ ((phase' = "trial" /\ phase = "jac") \/ (phase' = "cjac" /\ pend' = {}))
+Next == \/ (TrBuildStart /\ jset' = {})
+        \/ ((TrDeriv \/ TrCJacDeriv) /\ jset' = IF JacDone THEN jset \cup {tgt} ELSE jset)
+        \/ (/\ \/ TrBuildSet \/ TrBuildEval \/ TrBuildEnd
+               \/ TrCSet \/ TrCSetEval \/ TrCSetEnd \/ TrCJacEnd
+               \/ TrFitStart \/ TrTrialSet \/ TrTrialSetMemo \/ TrEvalAfterFailedSet \/ TrTrialEval
+               \/ TrResetSet \/ TrResetEval \/ TrFitEnd
+               \/ TrStaleBuildEval \/ TrStaleCSetEval \/ TrStaleTrialEval
+               \/ TrCSetSkip \/ TrTrialSetSkip \/ TrResetSetSkip
+               \/ TrStatDeriv \/ TrStatEval \/ TrStatsEnd \/ TrPostEval \/ TrBestFit
+            /\ UNCHANGED jset)
 Spec == Init /\ [][Next]_vars
 
 \* accepted iff some behaviour consumed every event
